@@ -1,7 +1,7 @@
 (* C17 — hashing is Keccak-256 with the original (pre-SHA-3) padding; hash-to-scalar reduces modulo l.
    Statements only (pinned by Check), `exact` proofs and assumption audits.  Keccak-f[1600] of Model/Keccak.v is the
    reference itself (validated by the known-answer Examples below and by the correspondence check). *)
-From MRS Require Import Proofs.KeccakProofs Proofs.KeccakBounds.
+From MRS Require Import Proofs.KeccakProofs Proofs.KeccakBounds Proofs.KeccakFRefine.
 From Coq Require Import String.
 Open Scope N_scope.
 
@@ -49,6 +49,17 @@ Theorem C17_block_lanes : forall blk, List.length blk = 136%nat ->
   forall extra, lanes_of_bytes (17 + extra) blk = lanes_of_bytes 17 blk.
 Proof. exact lanes_of_block. Qed.
 
+(* the permutation: the 25-lane Keccak-f[1600] of the model IS the bit-level Keccak-p[1600, 24] of FIPS 202 §3.2-3.4
+   (Spec/KeccakF.v: theta, rho with offsets from the (x,y) walk, pi, chi, iota with round constants from the LFSR rc(t)),
+   under the state-array convention A[x, y, z] = bit z of lane x + 5y; 64-bit lanes stay 64-bit *)
+Theorem C17_keccak_f_is_fips202 : forall (a : list N),
+  List.length a = 25%nat -> Forall (fun v => v < 2 ^ 64) a ->
+  List.length (keccak_f a) = 25%nat /\ Forall (fun v => v < 2 ^ 64) (keccak_f a) /\
+  forall x y z, (x < 5)%nat -> (y < 5)%nat -> z < 64 ->
+    N.testbit (nth (x + 5 * y) (keccak_f a) 0) z =
+    s_keccak_f (fun x y z => N.testbit (nth (x mod 5 + 5 * (y mod 5)) a 0) z) x y z.
+Proof. exact keccak_f_is_fips202. Qed.
+
 (* every lane of the final state is below 2^64 (rotations and complements never leave 64 bits), so the digest is the exact
    little-endian image of the first four lanes *)
 Theorem C17_state_lanes_64bit : forall m, exists st,
@@ -84,6 +95,15 @@ Proof. vm_compute. reflexivity. Qed.
 Example C17_not_sha3_256_empty :
   Some (keccak256 []) <> parse_hex "a7ffc6f8bf1ed76651c14756a061d662f580ff4de43b49fa82d80a4b80f8434a".
 Proof. vm_compute. discriminate. Qed.
+(* the specification's derived tables are the published ones (FIPS 202 Table 2; RC[0], RC[1], RC[23]) *)
+Example C17_spec_rho_offsets :
+  map (fun xy => rho_off (fst xy) (snd xy)) [(0,0); (1,0); (2,0); (3,0); (4,0); (0,1); (1,1); (2,1); (3,1); (4,1)]%nat
+  = [0; 1; 62; 28; 27; 36; 44; 6; 55; 20].
+Proof. vm_compute. reflexivity. Qed.
+Example C17_spec_round_constants :
+  map (fun ir => fold_left (fun acc z => acc + if RC_bit ir (N.of_nat z) then 2 ^ N.of_nat z else 0) (seq 0 64) 0) [0; 1; 23]%nat
+  = [0x1; 0x8082; 0x8000000080008008].
+Proof. vm_compute. reflexivity. Qed.
 Example C17_group_order : group_order = 2 ^ 252 + 27742317777372353535851937790883648493.
 Proof. vm_compute. reflexivity. Qed.
 Example C17_scalar_of_all_ones : h2s (repeat xff 32) = (2 ^ 256 - 1) mod group_order /\ h2s (n2le 32 group_order) = 0.
@@ -114,6 +134,12 @@ Check C17_absorb_all_blocks : forall m,
 Check C17_block_lanes : forall blk, List.length blk = 136%nat ->
   List.length (lanes_of_bytes 17 blk) = 17%nat /\
   forall extra, lanes_of_bytes (17 + extra) blk = lanes_of_bytes 17 blk.
+Check C17_keccak_f_is_fips202 : forall (a : list N),
+  List.length a = 25%nat -> Forall (fun v => v < 2 ^ 64) a ->
+  List.length (keccak_f a) = 25%nat /\ Forall (fun v => v < 2 ^ 64) (keccak_f a) /\
+  forall x y z, (x < 5)%nat -> (y < 5)%nat -> z < 64 ->
+    N.testbit (nth (x + 5 * y) (keccak_f a) 0) z =
+    s_keccak_f (fun x y z => N.testbit (nth (x mod 5 + 5 * (y mod 5)) a 0) z) x y z.
 Check C17_state_lanes_64bit : forall m, exists st,
   List.length st = 25%nat /\ Forall (fun x => x < 2 ^ 64) st /\
   keccak256 m = flat_map (n2le 8) (firstn 4 st) /\
@@ -132,6 +158,7 @@ Print Assumptions C17_padded_bits_blocks.
 Print Assumptions C17_padding_is_not_sha3.
 Print Assumptions C17_absorb_all_blocks.
 Print Assumptions C17_block_lanes.
+Print Assumptions C17_keccak_f_is_fips202.
 Print Assumptions C17_state_lanes_64bit.
 Print Assumptions C17_scalar.
 Print Assumptions C17_scalar_canonical_fixed.
